@@ -111,6 +111,17 @@ CHECKS = {
         "runtime monitoring: reference-model oracle over unit.calls + recorder on _add_procedure_calls",
         "3/C08",
     ),
+    "C09": (
+        "exploration",
+        "Runtime monitor over complete FORD runs (real argparse + settings + parser + templates + graphviz, forked child) on generated projects "
+        "of varying shape (single file / many, no modules, only a program, block data, submodules, static pages at several depths, media, "
+        "graphs on/off, search on/off, incl_src, sort and display vectors): an offline checker walks every href/src/action/xlink:href of "
+        "every generated page (incl. inline SVG) and every search record and requires: relative URL, no absolute output path, target file "
+        "exists under the output directory, #fragment is an id of the target page.",
+        "External (scheme) URLs are not followed; the fragment check accepts the raw or the percent-decoded form; html.parser defines the DOM.",
+        "runtime monitoring: offline link-graph checker over the generated site of each run",
+        "3/C09",
+    ),
     "C10": (
         "exploration",
         "Runtime monitor over complete FORD runs (forked child): (a) sys.addaudithook file-system event log - an entity page or copied "
